@@ -455,7 +455,7 @@ pub fn run(args: &Args) -> i32 {
             labels.push(format!("op {form} on {}", a.0));
         }
         // interpolation with format options (precision truncates non-numbers by graphemes)
-        for spec in ["", "?", ".0", ".1", ".2", ".3", ".1?", ".2?", "3", "<3", ">4.1", "é^5.2", "03", "x", "e", ".2e", "#?"] {
+        for spec in ["", "?", ".0", ".1", ".2", ".3", ".1?", ".2?", "3", "<3", ">4.1", "é^5.2", "03", "x", "e", ".2e", "#?", "_<", "*^", "*^.1", "0>", "é<", "~", "é", "🇯🇵", "_", "<", "^.2"] {
             let value = if a.2.contains('\'') { a.0.to_string() } else { a.2.to_string() };
             if a.2.contains('\'') {
                 // string literals cannot be nested in the template: bind them first
